@@ -24,7 +24,7 @@ func init() {
 			o.TagBias = true
 			o.Scopes = i%2 == 0
 			conf := gen.Behaviour(r, o)
-			u := &probe.Unit{ID: idOf(i), Cfg: conf, Files: gen.Split(r, conf, i%3), Ops: StdOps(conf, r, i%4 == 0)}
+			u := &probe.Unit{ID: idOf(i), Cfg: conf, Files: gen.Split(r, conf, i%4), Ops: StdOps(conf, r, i%4 == 0)}
 			units = append(units, u)
 		}
 		return behaviourUnits(c, lab, units, func(conf *cfg.Config) bool {
